@@ -138,7 +138,14 @@ func (s *attrStore) Attrs(id uint64) (m map[string]interface{}, err error) {
 	// Add to cache.
 	s.attrCache.Set(id, m)
 
-	return m, nil
+	// The cache now owns m (which may also be the shared emptyMap of absent
+	// ids): hand the caller a copy, as on a cache hit, so that nothing the
+	// caller does to the map can change what later readers see.
+	ret := make(map[string]interface{}, len(m))
+	for k, v := range m {
+		ret[k] = v
+	}
+	return ret, nil
 }
 
 // SetAttrs sets attribute values for a given ID.
